@@ -8,7 +8,7 @@
    expansion uses the node edge of v.  Hence klae_optimal and kmpe_optimal_unbounded transfer verbatim. *)
 From Coq Require Import List NArith ZArith QArith Qabs Lqa Bool Arith Lia Permutation.
 Import ListNotations.
-From FP Require Import Lin PathEnc Euler EulerProofs1 PathEncProofs PathEncComplete Aug AugProofs EndToEnd1 EndToEnd2
+From FP Require Import Lin Blocks PathEnc Euler EulerProofs1 PathEncProofs PathEncComplete Aug AugProofs EndToEnd1 EndToEnd2
                        EndToEndCover Dilworth ErrEncIgnore DilworthNode NodeFlowE2E
                        ErrEnc ErrEncProofs ErrEncComplete ErrEncKlae ErrEncOptimal ErrEncOptimal2.
 Set Default Timeout 60.
@@ -35,6 +35,13 @@ Definition node_err_inst (V : list node) (E : list PathEnc.edge) (s t : node) (f
      e_user_ignore := node_ignore E ign;
      e_scale := map (fun v => (nedge v, sc v)) V;
      e_int := isint; e_given := None; e_korig := k |}.
+
+Definition node_kmpe_inst (V : list node) (E : list PathEnc.edge) (s t : node) (fq sc : node -> Q) (ign : list node)
+                          (isint : bool) (k : nat) : kmpe_inst :=
+  {| m_err := node_err_inst V E s t fq sc ign isint k; m_len := None; m_pieces := [] |}.
+(* the bound the models put on weights and slacks: k * weight_type(largest counting node weight) *)
+Definition node_wmax (V : list node) (fq sc : node -> Q) (ign : list node) (isint : bool) (k : nat) : Q :=
+  qmax (inject_Z (Z.of_nat k) * cast isint (max_of (map fq (nodes_basic V ign sc)))) 0.
 
 (* ---------------------------------------------------------------------------------------------- list helpers *)
 Lemma filter_all_false {A} (f : A -> bool) l : (forall x, In x l -> f x = false) -> filter f l = [].
@@ -318,6 +325,33 @@ Section NodeErr.
     - exists (conP P), w, sl. split; [exact (choice_contracts P w sl Hch)|exact Hsum].
     - intros Pn w2 sl2 Hch2. exact (Hmin (expP Pn) w2 sl2 (choice_expands Pn w2 sl2 Hch2)).
   Qed.
+
+  (* ---- feasibility of the kMinPathError model, with the model's bound on weights and slacks *)
+  Lemma w_max_node : w_max I = node_wmax V fq sc ign isint k.
+  Proof.
+    unfold w_max, node_wmax, max_flow. cbn [I node_err_inst e_given e_int]. fold (node_err_inst V E s t fq sc ign isint k). fold I.
+    rewrite basic_nedges, map_map. rewrite (map_ext_in (fun x => flow_of I (nedge x)) fq); [reflexivity|].
+    intros v Hv. apply flow_of_nedge. apply nodes_basic_in. exact Hv.
+  Qed.
+
+  Definition node_kmpe_choice_bounded (Pn : N -> list node) (w sl : N -> Q) : Prop :=
+    node_kmpe_choice Pn w sl /\
+    forall i, In i (layers k) -> w i <= node_wmax V fq sc ign isint k /\ sl i <= node_wmax V fq sc ign isint k.
+
+  Theorem node_kmpe_feasible_iff :
+    (exists a, sat a (encode_kmpe M)) <-> (exists Pn w sl, node_kmpe_choice_bounded Pn w sl).
+  Proof.
+    rewrite (kmpe_feasible_iff M rank' (S (S (length (exp_topo topo)))) eq_refl eq_refl wf_I eq_refl Hrank'
+               (fun v => st_rank_le s t Hst (exp_topo topo) v) kmpe_side_M).
+    split.
+    - intros (P & w & sl & (HP & Hw & Herr & Hc)). exists (conP P), w, sl. split.
+      + apply choice_contracts. split; [exact HP|]. split; [|split; [exact Herr|exact Hc]].
+        intros i Hi. destruct (Hw i Hi) as ([W0 _] & Wi & [S0 _] & Si). tauto.
+      + intros i Hi. cbn [M m_err] in Hw. destruct (Hw i Hi) as ([_ W1] & _ & [_ S1] & _). rewrite <- w_max_node. split; assumption.
+    - intros (Pn & w & sl & Hch & Hb). exists (expP Pn), w, sl.
+      destruct (choice_expands Pn w sl Hch) as (HP & Hw & Herr & Hc). split; [exact HP|]. split; [|split; [exact Herr|exact Hc]].
+      intros i Hi. cbn [M m_err] in *. destruct (Hw i Hi) as (W0 & Wi & S0 & Si). destruct (Hb i Hi) as [W1 S1]. rewrite w_max_node. tauto.
+  Qed.
 End NodeErr.
 
 (* ================================================================================================================= *)
@@ -391,4 +425,27 @@ Proof.
       unfold node_explains, node_on in H1, H2. cbn [layers seq map sumq] in *. change (N.of_nat 0) with 0%N in *.
       rewrite M1 in H1. rewrite M2 in H2. cbn [indq exfq exsc N.eqb Pos.eqb] in H1, H2. unfold exsc in H1, H2.
       apply Qabs_Qle_condition in H1, H2. lra.
+Qed.
+
+Lemma ex_c07_premises :
+  NoDup exV /\ NoDup exE /\ (forall e, In e exE -> In (fst e) exV /\ In (snd e) exV) /\
+  (forall u v, In (u, v) exE -> (posn exV u < posn exV v)%nat) /\ incl exV exV /\
+  ~ In 100%N (expV exV) /\ ~ In 101%N (expV exV) /\ 100%N <> 101%N /\
+  node_domain exV exfq exsc [] false 1 /\ node_paths exV exE 1 exPn /\
+  node_klae_cost exV exfq exsc [] 1 exPn (fun _ => 4) == 2 /\
+  (forall Pn w, node_paths exV exE 1 Pn -> 2 <= node_klae_cost exV exfq exsc [] 1 Pn w).
+Proof.
+  destruct ex_node_premises as (H1 & H2 & H3 & H4 & H5 & H6 & H7 & H8 & _ & H10 & H11 & H12 & H13 & _).
+  exact (conj H1 (conj H2 (conj H3 (conj H4 (conj H5 (conj H6 (conj H7 (conj H8 (conj H10 (conj H11 (conj H12 H13))))))))))).
+Qed.
+Lemma ex_c08_premises :
+  NoDup exV /\ NoDup exE /\ (forall e, In e exE -> In (fst e) exV /\ In (snd e) exV) /\
+  (forall u v, In (u, v) exE -> (posn exV u < posn exV v)%nat) /\ incl exV exV /\
+  ~ In 100%N (expV exV) /\ ~ In 101%N (expV exV) /\ 100%N <> 101%N /\
+  node_domain1 exV exfq exsc [] false 1 /\
+  node_kmpe_choice exV exE exfq exsc [] false 1 exPn (fun _ => 4) (fun _ => 1) /\
+  (forall Pn w sl, node_kmpe_choice exV exE exfq exsc [] false 1 Pn w sl -> 1 <= sumq sl (layers 1)).
+Proof.
+  destruct ex_node_premises as (H1 & H2 & H3 & H4 & H5 & H6 & H7 & H8 & H9 & _ & _ & _ & _ & H14 & H15).
+  exact (conj H1 (conj H2 (conj H3 (conj H4 (conj H5 (conj H6 (conj H7 (conj H8 (conj H9 (conj H14 H15)))))))))).
 Qed.
